@@ -2072,7 +2072,10 @@ class UnitQuaternion(Quaternion):
                     [ 0.29552021,  0.95533649,  0.        ],
                     [ 0.        ,  0.        ,  1.        ]]))
         """
-        return SO3(self.R, check=False)
+        if len(self) == 1:
+            return SO3(self.R, check=False)
+        else:
+            return SO3([base.q2r(q) for q in self.data], check=False)
 
     def SE3(self):
         """
@@ -2096,7 +2099,10 @@ class UnitQuaternion(Quaternion):
                     [ 0.        ,  0.        ,  1.        ,  0.        ],
                     [ 0.        ,  0.        ,  0.        ,  1.        ]]))
         """
-        return SE3(base.r2t(self.R), check=False)
+        if len(self) == 1:
+            return SE3(base.r2t(self.R), check=False)
+        else:
+            return SE3([base.r2t(base.q2r(q)) for q in self.data], check=False)
 
 
 if __name__ == '__main__':  # pragma: no cover
